@@ -1,9 +1,9 @@
 (* Every history of the models is accepted by the property-level monitor (ServerWriteMonitor.v):
-     one client   - the whole monitor, including the progress clause (one poll event = one run())
-     two clients  - per client, the events of that client; the kernel-asked events (EWritable) are not
-                    part of the two-client trace (a collected notification is handed out by a later
-                    Deliver step, which is an input of that machine), so the progress clause is not
-                    exercised there. *)
+     one client   - the whole monitor, including the deadline clauses progress / onWrite / resumed (one poll event
+                    = one poll of a run(); the ends of run() calls and the size probes stand anywhere in the history)
+     n clients    - per client, the events of that client; the kernel-asked events (EWritable, EReadable) are not
+                    part of the n-client trace (a collected notification is handed out by a later Deliver step,
+                    which is an input of that machine), so the deadline clauses are not exercised there. *)
 From Coq Require Import ZArith List Bool Lia.
 From ServerWrite Require Import ServerWriteSpec ServerWriteMonitor ServerWriteModel ServerWriteProofs ServerWriteTheorems
   ServerWrite2Spec ServerWrite2Model ServerWrite2Proofs.
@@ -22,32 +22,15 @@ Arguments Z.leb : simpl never.
 
 (* ---- the traces ------------------------------------------------------------------------------------ *)
 
-Fixpoint trace (s : st) (l : list op) : list pev :=
+Definition size_probe (s : st) : list pev := if removed s then [] else [ESize (getSendBufferSize s)].
+
+Fixpoint trace (s : st) (l : list hop) : list pev :=
   match l with
   | [] => []
-  | x :: l' => let '(s', r) := step s x in
-               events_of true x r (removed s') (getSendBufferSize s') ++ trace s' l'
-  end.
-
-(* what client c sees of one step of the two-client machine *)
-Definition events2 (c : bool) (x : op2) (r : out2) (s' : st) : list pev :=
-  match o2_c r with
-  | Some c' =>
-      if eqb c' c then
-        match x with
-        | On _ y => events_of false y (o2_out r) (removed s') (getSendBufferSize s')
-        | Deliver _ => dispatch_events false (o2_out r) (removed s') (getSendBufferSize s')
-        | Sweep => map ECb (o_cbs (o2_out r))
-        | Collect _ _ _ => []
-        end
-      else []
-  | None => []
-  end.
-
-Fixpoint trace2 (c : bool) (m : st2) (l : list op2) : list pev :=
-  match l with
-  | [] => []
-  | x :: l' => let '(m', r) := step2 m x in events2 c x r (get2 m' c) ++ trace2 c m' l'
+  | HOp x :: l' => let '(s', r) := step s x in
+                   events_of true (real_native (inbound s) (peer_closed s)) x r ++ trace s' l'
+  | HSize :: l' => size_probe s ++ trace s l'
+  | HRunEnd :: l' => ERunEnd :: trace s l'
   end.
 
 (* ---- monitor basics -------------------------------------------------------------------------------- *)
@@ -76,18 +59,18 @@ Proof. induction l as [|x l IH]; simpl; auto. rewrite Z.eqb_refl. exact IH. Qed.
 
 (* ---- the coupling of a monitor with the state of its client ------------------------------------- *)
 
-(* [d]: the progress obligation the monitor holds (0 between the steps of the model) *)
-Record MId (d : nat) (m : mon) (s : st) : Prop := mkMI {
+(* [d], [rd]: the deadlines the monitor holds (0 between the steps of the model) *)
+Record MId (d rd : nat) (m : mon) (s : st) : Prop := mkMI {
   mi_susp : removed s = false -> m_susp m = suspended s;
   mi_dead : removed s = true -> m_void m = true;
   mi_live : m_void m = false ->
-            peer_closed s = false /\ m_pend m = sendbuf s /\ m_wire m = wire s /\
-            m_owed m = negb (is_nil (sendbuf s)) /\ m_due m = d
+            registered s = true /\ peer_closed s = false /\ m_pend m = sendbuf s /\ m_wire m = wire s /\
+            m_owed m = negb (is_nil (sendbuf s)) /\ m_due m = d /\ m_rdue m = rd
 }.
-Notation MI := (MId O).
+Notation MI := (MId O O).
 
 Lemma MI_init : MI mon_init init.
-Proof. split; simpl; intros; auto; try discriminate. Qed.
+Proof. split; simpl; intros; auto; try discriminate. repeat split; reflexivity. Qed.
 
 Definition accepts (m : mon) (l : list pev) (s' : st) : Prop :=
   exists m', mon_run m l = Go m' /\ MI m' s'.
@@ -98,46 +81,109 @@ Proof. intros H. apply nonnil_is_nil. apply zdrop_nonnil. exact H. Qed.
 Lemma nonnil_app_is_nil (a b : list Z) : a <> [] -> is_nil (a ++ b) = false.
 Proof. destruct a; simpl; congruence. Qed.
 
+(* once an event outside the quantifier has happened only the suspended clause is judged *)
+Definition no_susp_event (l : list pev) : Prop := forall b, ~ In (ESusp b) l.
+
+Lemma void_run l : forall m,
+  m_void m = true -> no_susp_event l -> (In (ECb OnRead) l -> m_susp m = false) ->
+  exists m', mon_run m l = Go m' /\ m_void m' = true /\ m_susp m' = m_susp m.
+Proof.
+  induction l as [|e l IH]; intros m Hv Hns Hrd. { eexists; simpl; auto. }
+  assert (Hns' : no_susp_event l) by (intros b Hin; apply (Hns b); right; exact Hin).
+  assert (Hstep : exists m1, mon_step m e = Go m1 /\ m_void m1 = true /\ m_susp m1 = m_susp m).
+  { destruct e as [d ret post tx | tx | | | c | b | n | d | | | ]; try (exists m; simpl; rewrite Hv; auto; fail).
+    - destruct c; try (exists m; simpl; rewrite Hv; auto; fail).
+      pose proof (Hrd (or_introl eq_refl)) as Hf. exists (set_rdue m O). simpl. rewrite Hf. auto.
+    - exfalso. apply (Hns b). left. reflexivity. }
+  destruct Hstep as [m1 [H1 [Hv1 Hs1]]].
+  destruct (IH m1 Hv1 Hns') as [m' [Hr [Hv' Hs']]].
+  { intros Hin. rewrite Hs1. apply Hrd. right. exact Hin. }
+  exists m'. simpl. rewrite H1. split; [exact Hr | split; [exact Hv' | congruence]].
+Qed.
+
+Lemma void_accepts m l s s' :
+  MI m s -> m_void m = true -> no_susp_event l ->
+  (In (ECb OnRead) l -> removed s = false /\ suspended s = false) ->
+  (removed s' = false -> removed s = false /\ suspended s' = suspended s) ->
+  accepts m l s'.
+Proof.
+  intros [Hs Hd Hl] Hv Hns Hrd Hfr.
+  destruct (void_run l m Hv Hns) as [m' [Hr [Hv' Hs']]].
+  { intros Hin. destruct (Hrd Hin) as [A B]. rewrite (Hs A). exact B. }
+  exists m'. split; [exact Hr|]. split.
+  - intros Hrm. destruct (Hfr Hrm) as [A B]. rewrite Hs', (Hs A). symmetry. exact B.
+  - intros _. exact Hv'.
+  - intros E. congruence.
+Qed.
+
+(* the kernel is asked: what it finds for the socket *)
+Lemma ask_accepted m s (w rdb : bool) :
+  removed s = false -> MI m s ->
+  exists m1, mon_run m (ask_events w rdb) = Go m1 /\
+             MId (if w && negb (is_nil (sendbuf s)) then 2%nat else O)
+                 (if rdb && negb (suspended s) then 2%nat else O) m1 s /\
+             m_void m1 = m_void m.
+Proof.
+  intros Hrm HMI.
+  destruct m as [pend wire0 susp owed may due rdue void]. destruct HMI as [Hs Hdead Hl]. simpl in Hs, Hdead, Hl.
+  specialize (Hs Hrm). subst susp.
+  destruct void.
+  - exists (mkmon pend wire0 (suspended s) owed may due rdue true). split.
+    + unfold ask_events. destruct w, rdb; reflexivity.
+    + split; [|reflexivity]. split; simpl; auto. discriminate.
+  - destruct (Hl eq_refl) as (Hreg & Hpc & -> & -> & -> & -> & ->).
+    unfold ask_events.
+    destruct w, rdb; simpl; rewrite ?orb_diag, ?andb_true_r;
+      destruct (is_nil (sendbuf s)) eqn:En; destruct (suspended s) eqn:Esu; simpl;
+      (eexists; split; [reflexivity|]; split; [|reflexivity]; split; simpl; auto; try discriminate;
+       intros _; rewrite ?En; repeat split; auto).
+Qed.
+
 Ltac done_MI := eexists; (split; [reflexivity|]); split; simpl; auto; try discriminate; try solve [symmetry; auto];
+                try solve [let Hx := fresh "Hx" in intros Hx; match goal with Hr : removed _ = false |- _ => rewrite ?Hr in Hx end; discriminate];
                 intros _; rewrite ?app_nil_r; repeat split; auto;
                 try solve [repeat match goal with H : is_nil ?x = _ |- context [is_nil ?x] => rewrite H end; reflexivity];
                 try solve [match goal with H : sendbuf _ = [] |- _ => rewrite ?H; reflexivity end].
 
-(* the kernel is asked and finds the socket writable *)
-Lemma writable_accepted m s (w : bool) :
-  MI m s ->
-  exists m1, mon_run m (if w then [EWritable] else []) = Go m1 /\
-             MId (if w && negb (is_nil (sendbuf s)) then 2%nat else O) m1 s.
-Proof.
-  intros HMI. destruct w; simpl; [|eexists; split; [reflexivity | exact HMI]].
-  destruct m as [pend wire0 susp owed may due void]. destruct HMI as [Hs Hdead Hl]. simpl in Hs, Hdead, Hl.
-  destruct void; simpl.
-  - eexists; split; [reflexivity|]. split; simpl; auto. discriminate.
-  - destruct (Hl eq_refl) as (Hpc & -> & -> & -> & ->). simpl.
-    destruct (is_nil (sendbuf s)) eqn:En; simpl; eexists; (split; [reflexivity|]); split; simpl; auto;
-      intros _; rewrite ?En; repeat split; auto.
-Qed.
-
 (* ---- the client part of one poll event: dispatch_flags ------------------------------------------- *)
 
-Lemma flags_accepted d m s rf wf o s' r :
+Lemma flags_accepted d rd m s rf wf o s' r :
   removed s = false ->
   (rf = true -> suspended s = false) -> (wf = true -> sendbuf s <> []) ->
-  (d <> O -> wf = true) ->
-  MId d m s -> dispatch_flags s rf wf o = (s', r) ->
-  accepts m (dispatch_events false r (removed s') (getSendBufferSize s')) s'.
+  (d <> O -> wf = true) -> (rd <> O -> rf = true) ->
+  MId d rd m s -> dispatch_flags s rf wf o = (s', r) ->
+  accepts m (send_events r ++ map ECb (o_cbs r)) s'.
 Proof.
-  intros Hrm Hnosusp Hwf Hw HMI H.
-  destruct m as [pend wire0 susp owed may due void]. destruct HMI as [Hs Hdead Hl]. simpl in Hs, Hdead, Hl.
+  intros Hrm Hnosusp Hwf Hw Hrdf HMI H.
+  destruct (m_void m) eqn:Hvoid.
+  { (* outside the quantifier already *)
+    assert (HMI0 : MI m s). { destruct HMI as [A B C]. split; auto. intros E. congruence. }
+    pose proof (dispatch_flags_suspended _ _ _ _ _ _ H) as [Hsu' Hrm'].
+    apply (void_accepts m _ s s' HMI0 Hvoid).
+    - intros b Hin. apply in_app_or in Hin. destruct Hin as [Hin|Hin].
+      + unfold send_events in Hin. destruct (o_drop r); [destruct Hin as [E|[]]; discriminate|].
+        destruct (o_sends r) as [|[a b0] t]; [destruct Hin|]. destruct (0 <? b0); destruct Hin as [E|[]]; discriminate.
+      + apply in_map_iff in Hin. destruct Hin as [c [E _]]. discriminate.
+    - intros Hin. split; [exact Hrm|]. apply Hnosusp.
+      destruct rf; [reflexivity|]. exfalso.
+      apply in_app_or in Hin. destruct Hin as [Hin|Hin].
+      + unfold send_events in Hin. destruct (o_drop r); [destruct Hin as [E|[]]; discriminate|].
+        destruct (o_sends r) as [|[a b0] t]; [destruct Hin|]. destruct (0 <? b0); destruct Hin as [E|[]]; discriminate.
+      + apply in_map_iff in Hin. destruct Hin as [c [E Hc]]. injection E as ->.
+        exact (dispatch_flags_no_read _ _ _ _ _ H Hc).
+    - intros _. split; [exact Hrm | exact Hsu']. }
+  destruct m as [pend wire0 susp owed may due rdue void]. simpl in Hvoid. subst void.
+  destruct HMI as [Hs Hdead Hl]. simpl in Hs, Hdead, Hl.
   specialize (Hs Hrm). subst susp.
+  destruct (Hl eq_refl) as (Hreg & Hpc & -> & -> & -> & -> & ->). clear Hl Hdead.
   unfold dispatch_flags in H. destruct wf.
   - assert (Hne : sendbuf s <> []) by (apply Hwf; reflexivity).
+    assert (Hnil : is_nil (sendbuf s) = false) by (apply nonnil_is_nil; exact Hne).
     clear Hw.
     destruct (write_ready s o) as [[s1 r1] fin] eqn:Ew. apply write_ready_cases in Ew.
-    destruct Ew as [He _ _ _ | _ Hf -> -> -> | sent _ Hs Hwhich -> -> -> | _ Hle -> -> ->]; [congruence | | |].
+    destruct Ew as [He _ _ _ | _ Hf -> -> -> | sent _ Hsent Hwhich -> -> -> | _ Hle -> -> ->]; [congruence | | |].
     + (* the send fails: outside the quantifier *)
-      inv_pair H. unfold accepts, dispatch_events, send_events, size_event, getSendBufferSize. simpl. rewrite Hrm.
-      destruct void; simpl; done_MI.
+      inv_pair H. unfold accepts, send_events. simpl. done_MI.
     + (* a proper prefix (nothing: would-block) *)
       assert (Hs' : s' = set_buf (os_take s (ztake sent (sendbuf s))) (zdrop sent (sendbuf s))).
       { simpl in H. destruct rf; inv_pair H; reflexivity. }
@@ -148,54 +194,37 @@ Proof.
         by (simpl in H; destruct rf; inv_pair H; reflexivity).
       assert (Htx : o_tx r = ztake sent (sendbuf s)) by (simpl in H; destruct rf; inv_pair H; reflexivity).
       clear H. subst s'.
-      unfold accepts, dispatch_events, send_events, size_event, getSendBufferSize.
-      rewrite Hcb, Hdr, Hse, Htx. cbn [removed set_buf os_take set_wire sendbuf buf_size].
-      rewrite Hrm.
-      assert (Hrd : (if rf then [OnRead] else []) = [] \/ ((if rf then [OnRead] else []) = [OnRead] /\ suspended s = false)).
-      { destruct rf; auto. }
-      destruct void.
-      * (* void: only the suspended clause is judged *)
-        destruct Hrd as [-> | [-> Hsf]]; destruct (0 <? fst (send_ret (zlen (sendbuf s)) o)); simpl; rewrite ?Hsf; done_MI.
-      * destruct (Hl eq_refl) as (Hpc & -> & -> & -> & ->).
-        assert (Hnil : is_nil (sendbuf s) = false) by (apply nonnil_is_nil; exact Hne).
-        assert (Hnil' : is_nil (zdrop sent (sendbuf s)) = false) by (apply zdrop_is_nil_false; lia).
-        destruct Hwhich as [[-> Hwb] | [H1 Hsent]].
-        -- (* would-block *)
-           rewrite Hwb. simpl fst. change (0 <? -1) with false. cbv iota.
-           rewrite zdrop_0, ztake_0.
-           destruct Hrd as [-> | [-> Hsf]];
-             repeat progress (simpl; rewrite ?Hnil, ?Hsf, ?Z.eqb_refl); done_MI.
-        -- rewrite <- Hsent. assert (E : 0 <? sent = true) by lia. rewrite E.
-           destruct Hrd as [-> | [-> Hsf]];
-             repeat progress (simpl; rewrite ?strip_take, ?Hnil, ?Hnil', ?Hsf, ?Z.eqb_refl, ?andb_false_r, ?andb_true_r); done_MI.
+      unfold accepts, send_events.
+      rewrite Hcb, Hdr, Hse, Htx.
+      assert (Hnil' : is_nil (zdrop sent (sendbuf s)) = false) by (apply zdrop_is_nil_false; lia).
+      assert (Hrd : rf = true /\ suspended s = false \/ rf = false /\ rd = O).
+      { destruct rf; [left; auto | right; split; auto]. destruct rd; auto.
+        assert (false = true) by (apply Hrdf; discriminate). discriminate. }
+      destruct Hwhich as [[-> Hwb] | [H1 Hsent']].
+      * (* would-block *)
+        rewrite Hwb. simpl fst. change (0 <? -1) with false. cbv iota.
+        rewrite zdrop_0, ztake_0.
+        destruct Hrd as [[-> Hsf] | [-> ->]];
+          repeat progress (simpl; rewrite ?Hnil, ?Hsf, ?Z.eqb_refl); done_MI.
+      * rewrite <- Hsent'. assert (E : 0 <? sent = true) by lia. rewrite E.
+        destruct Hrd as [[-> Hsf] | [-> ->]];
+          repeat progress (simpl; rewrite ?strip_take, ?Hnil, ?Hnil', ?Hsf, ?Z.eqb_refl, ?andb_false_r, ?andb_true_r); done_MI.
     + (* the whole backlog: drained, onWrite *)
       inv_pair H.
-      unfold accepts, dispatch_events, send_events, size_event, getSendBufferSize.
+      unfold accepts, send_events.
       cbn [o_cbs o_drop o_sends o_tx removed poll_set set_buf os_take set_wire sendbuf buf_size map].
-      rewrite Hrm.
       assert (Hlen : 0 < zlen (sendbuf s)).
       { pose proof (zlen_nonneg (sendbuf s)). pose proof (zlen_nil_iff (sendbuf s)).
         destruct (Z.eq_dec (zlen (sendbuf s)) 0); [tauto | lia]. }
       assert (E : 0 <? fst (send_ret (zlen (sendbuf s)) o) = true) by lia. rewrite E.
-      destruct void.
-      * simpl; done_MI.
-      * destruct (Hl eq_refl) as (Hpc & -> & -> & -> & ->).
-        assert (Hnil : is_nil (sendbuf s) = false) by (apply nonnil_is_nil; exact Hne).
-        repeat progress (simpl; rewrite ?strip_self, ?Hnil, ?Z.eqb_refl); done_MI.
-  - (* no write part: no obligation is open *)
+      repeat progress (simpl; rewrite ?strip_self, ?Hnil, ?Z.eqb_refl); done_MI.
+  - (* no write part: no write-side deadline is open *)
     assert (Hd0 : d = O). { destruct d; auto. assert (false = true) by (apply Hw; discriminate). discriminate. }
     subst d.
-    destruct rf; injection H as <- <-;
-      unfold accepts, dispatch_events, send_events, size_event, getSendBufferSize; simpl; rewrite Hrm;
-      rewrite ?(Hnosusp eq_refl).
-    + destruct void.
-      * simpl; done_MI.
-      * destruct (Hl eq_refl) as (Hpc & -> & -> & -> & ->).
-        destruct (is_nil (sendbuf s)) eqn:En; repeat progress (simpl; rewrite ?En, ?Z.eqb_refl); done_MI.
-    + destruct void.
-      * simpl; done_MI.
-      * destruct (Hl eq_refl) as (Hpc & -> & -> & -> & ->).
-        destruct (is_nil (sendbuf s)) eqn:En; repeat progress (simpl; rewrite ?En, ?Z.eqb_refl); done_MI.
+    destruct rf.
+    + injection H as <- <-. unfold accepts, send_events; simpl. rewrite (Hnosusp eq_refl). simpl. done_MI.
+    + assert (Hrd0 : rd = O). { destruct rd; auto. assert (false = true) by (apply Hrdf; discriminate). discriminate. }
+      subst rd. injection H as <- <-. unfold accepts, send_events; simpl. done_MI.
 Qed.
 
 (* the interest set turns the flags of an event into facts about the client *)
@@ -210,33 +239,39 @@ Qed.
 Lemma ev_read_int_r s n : ev_read s n = true -> int_r s = true.
 Proof. unfold ev_read. destruct (int_r s); auto. rewrite andb_false_r. auto. Qed.
 
-(* one poll event of the one-client machine = one run(): the kernel is asked *)
+Lemma MId_void d rd m s : m_void m = true -> MId d rd m s -> MI m s.
+Proof. intros Hv [A B C]. split; auto. intros E. congruence. Qed.
+
+(* one poll event of the one-client machine = one poll of a run(): the kernel is asked *)
 Lemma dispatch_accepted m s n o s' r :
   inv s -> removed s = false -> MI m s -> dispatch s n o = (s', r) ->
-  accepts m (dispatch_events (nout n) r (removed s') (getSendBufferSize s')) s'.
+  accepts m (dispatch_events (nout n) (nin n) r) s'.
 Proof.
   intros Hinv Hrm HMI H.
-  destruct (writable_accepted m s (nout n) HMI) as [m1 [Hrun1 HM1]].
-  assert (Hsplit : dispatch_events (nout n) r (removed s') (getSendBufferSize s') =
-                   (if nout n then [EWritable] else []) ++ dispatch_events false r (removed s') (getSendBufferSize s'))
-    by reflexivity.
-  unfold accepts. rewrite Hsplit, mon_run_app, Hrun1.
+  destruct (ask_accepted m s (nout n) (nin n) Hrm HMI) as [m1 [Hrun1 [HM1 Hv1]]].
+  unfold accepts, dispatch_events. rewrite mon_run_app, Hrun1.
   destruct (registered s) eqn:Hreg.
   - rewrite dispatch_flags_eq in H by assumption.
     destruct (interest_facts s Hinv Hreg) as [Fr Fw].
-    apply (flags_accepted (if nout n && negb (is_nil (sendbuf s)) then 2%nat else O) m1 s (ev_read s n) (ev_write s n) o s' r Hrm);
-      [ | | | exact HM1 | exact H].
+    apply (flags_accepted (if nout n && negb (is_nil (sendbuf s)) then 2%nat else O)
+             (if nin n && negb (suspended s) then 2%nat else O) m1 s (ev_read s n) (ev_write s n) o s' r Hrm);
+      [ | | | | exact HM1 | exact H].
     + intros E. apply Fr. eapply ev_read_int_r; eauto.
     + intros E. apply Fw. eapply ev_write_int_w; eauto.
     + intros Hd. destruct (nout n) eqn:En; [|simpl in Hd; congruence].
       destruct (is_nil (sendbuf s)) eqn:Eb; [simpl in Hd; congruence|].
       apply is_nil_false in Eb. destruct (backlog_registered s Hinv Eb) as [_ Hw].
       unfold ev_write. rewrite En, Hw. reflexivity.
-  - assert (Hb : sendbuf s = []) by (destruct Hinv as [_ Hu _]; auto).
-    rewrite Hb in HM1. simpl in HM1. rewrite andb_false_r in HM1.
-    assert (Hf : dispatch_flags s false false o = (s', r)).
-    { unfold dispatch in H. rewrite Hreg in H. simpl in H. exact H. }
-    apply (flags_accepted O m1 s false false o s' r); auto; intros E; congruence.
+    + intros Hd. destruct (nin n) eqn:En; [|simpl in Hd; congruence].
+      destruct (suspended s) eqn:Esu; [simpl in Hd; congruence|].
+      destruct Hinv as [Hi _ _]. destruct (Hi Hreg) as [A _]. rewrite Esu in A. simpl in A.
+      unfold ev_read. rewrite En, A. reflexivity.
+  - (* the descriptor is not in the epoll set: a connection outside the quantifier *)
+    assert (Hvoid : m_void m1 = true).
+    { destruct (m_void m1) eqn:E; auto. destruct HM1 as [_ _ Hl]. destruct (Hl E) as [A _]. congruence. }
+    assert (Hf : (s', r) = (s, out_none)).
+    { unfold dispatch in H. rewrite Hreg in H. simpl in H. congruence. }
+    injection Hf as -> ->. simpl. eexists; split; [reflexivity|]. eapply MId_void; eauto.
 Qed.
 
 Lemma dispatch_not_dead s n o s' r : dispatch s n o = (s', r) -> o_dead r = false.
@@ -249,14 +284,19 @@ Qed.
 
 Lemma MI_frame m s s' :
   MI m s -> removed s' = removed s -> suspended s' = suspended s -> peer_closed s' = peer_closed s ->
-  sendbuf s' = sendbuf s -> wire s' = wire s -> MI m s'.
+  sendbuf s' = sendbuf s -> wire s' = wire s -> registered s' = registered s -> MI m s'.
 Proof.
-  intros [A B C] Hr Hs Hp Hb Hw. split; rewrite ?Hr, ?Hs, ?Hp, ?Hb, ?Hw; auto.
+  intros [A B C] Hr Hs Hp Hb Hw Hg. split; rewrite ?Hr, ?Hs, ?Hp, ?Hb, ?Hw, ?Hg; auto.
 Qed.
+
+Lemma accepts_nil m s s' :
+  MI m s -> removed s' = removed s -> suspended s' = suspended s -> peer_closed s' = peer_closed s ->
+  sendbuf s' = sendbuf s -> wire s' = wire s -> registered s' = registered s -> accepts m [] s'.
+Proof. intros. eexists; split; [reflexivity|]. eapply MI_frame; eauto. Qed.
 
 Lemma step_accepted m s x s' r :
   inv s -> MI m s -> step s x = (s', r) ->
-  accepts m (events_of true x r (removed s') (getSendBufferSize s')) s'.
+  accepts m (events_of true (real_native (inbound s) (peer_closed s)) x r) s'.
 Proof.
   intros Hinv HMI H. unfold step in H.
   destruct (removed s) eqn:Hrm.
@@ -264,123 +304,172 @@ Proof.
   destruct x.
   - (* Write *)
     apply do_write_cases in H.
-    destruct m as [pend wire0 susp owed may due void]. destruct HMI as [Hs Hdead Hl]. simpl in Hs, Hdead, Hl.
+    destruct m as [pend wire0 susp owed may due rdue void]. destruct HMI as [Hs Hdead Hl]. simpl in Hs, Hdead, Hl.
     specialize (Hs Hrm). subst susp.
     destruct H as [Hne -> -> | He Hf -> -> | He Hall -> -> | sent He Hs Hwhich -> ->];
-      unfold accepts, events_of, size_event, getSendBufferSize; simpl; rewrite Hrm.
+      unfold accepts, events_of, write_fault; simpl.
     + destruct void; [simpl; done_MI|].
-      destruct (Hl eq_refl) as (Hpc & -> & -> & -> & ->).
+      destruct (Hl eq_refl) as (Hreg & Hpc & -> & -> & -> & -> & ->).
       assert (Hn : is_nil (sendbuf s ++ d) = false) by (apply nonnil_app_is_nil; exact Hne).
       repeat progress (simpl; rewrite ?Hn, ?Z.eqb_refl, ?orb_true_r); done_MI.
-    + destruct void; simpl; done_MI.
+    + destruct (negb (is_nil d) || (fst (send_ret (zlen d) o) <? 0)) eqn:Efault.
+      * destruct void; simpl; done_MI.
+      * (* a write of no bytes turned into a send of 0 bytes answered 0 *)
+        apply orb_false_iff in Efault. destruct Efault as [Ed _]. apply negb_false_iff in Ed. apply is_nil_true in Ed. subst d.
+        destruct void; [simpl; done_MI|].
+        destruct (Hl eq_refl) as (Hreg & Hpc & -> & -> & -> & -> & ->). rewrite He.
+        replace (zlen []) with 0 by reflexivity.
+        repeat progress (simpl; rewrite ?He, ?Z.eqb_refl); done_MI.
     + destruct void; [simpl; done_MI|].
-      destruct (Hl eq_refl) as (Hpc & -> & -> & -> & ->). rewrite He.
+      destruct (Hl eq_refl) as (Hreg & Hpc & -> & -> & -> & -> & ->). rewrite He.
       repeat progress (simpl; rewrite ?strip_self, ?Z.eqb_refl); destruct (is_nil d); simpl; done_MI.
     + destruct void; [simpl; done_MI|].
-      destruct (Hl eq_refl) as (Hpc & -> & -> & -> & ->). rewrite He.
+      destruct (Hl eq_refl) as (Hreg & Hpc & -> & -> & -> & -> & ->). rewrite He.
       assert (Hn : is_nil (zdrop sent d) = false) by (apply zdrop_is_nil_false; lia).
       repeat progress (simpl; rewrite ?strip_take, ?Hn, ?Z.eqb_refl, ?orb_true_r);
         destruct (is_nil (ztake sent d)); simpl; done_MI.
   - (* Dispatch *)
     unfold events_of. rewrite (dispatch_not_dead s n o s' r H). simpl andb. apply (dispatch_accepted m s n o s' r); auto.
   - (* PollReal *)
-    assert (E : events_of true (PollReal o) r (removed s') (getSendBufferSize s') =
-                (if o_dead r then [] else dispatch_events (nout (real_native (inbound s) (peer_closed s))) r (removed s') (getSendBufferSize s')))
-      by reflexivity.
-    rewrite E. clear E.
-    rewrite (dispatch_not_dead s _ o s' r H). apply (dispatch_accepted m s _ o s' r); auto.
+    unfold events_of. rewrite (dispatch_not_dead s _ o s' r H).
+    exact (dispatch_accepted m s (real_native (inbound s) (peer_closed s)) o s' r Hinv Hrm HMI H).
   - (* CloseSweep *)
     destruct (closing s) eqn:Ec; inv_pair H; unfold accepts, events_of; simpl.
-    + destruct m as [pend wire0 susp owed may due void]. destruct void; simpl;
+    + destruct m as [pend wire0 susp owed may due rdue void]. destruct void; simpl;
         (eexists; split; [reflexivity|]); eapply MI_frame; eauto.
     + eexists; split; [reflexivity | exact HMI].
   - (* Suspend *)
     inv_pair H.
     assert (Hsb : sendbuf (do_suspend s) = sendbuf s /\ wire (do_suspend s) = wire s /\ removed (do_suspend s) = removed s /\
-                  peer_closed (do_suspend s) = peer_closed s /\ suspended (do_suspend s) = true).
+                  peer_closed (do_suspend s) = peer_closed s /\ suspended (do_suspend s) = true /\
+                  (registered s = true -> registered (do_suspend s) = true)).
     { unfold do_suspend. destruct (suspended s) eqn:E; [tauto|]. destruct (buf_isEmpty _); simpl; tauto. }
-    destruct Hsb as (Hb & Hw & Hr & Hp & Hsu).
-    unfold accepts, events_of, size_event, getSendBufferSize. simpl o_dead. cbv iota. rewrite Hr, Hrm, Hb.
-    destruct m as [pend wire0 susp owed may due void]. destruct HMI as [Hs Hdead Hl]. simpl in Hs, Hdead, Hl.
-    destruct void.
-    + simpl. eexists; split; [reflexivity|]. split; simpl; rewrite ?Hr, ?Hsu; auto. discriminate.
-    + destruct (Hl eq_refl) as (Hpc & -> & -> & -> & ->). unfold buf_size. simpl. rewrite Z.eqb_refl.
-      eexists; split; [reflexivity|]. split; simpl; rewrite ?Hr, ?Hsu, ?Hb, ?Hw, ?Hp; auto.
+    destruct Hsb as (Hb & Hw & Hr & Hp & Hsu & Hg).
+    unfold accepts, events_of. simpl o_dead. cbv iota.
+    destruct m as [pend wire0 susp owed may due rdue void]. destruct HMI as [Hs Hdead Hl]. simpl in Hs, Hdead, Hl.
+    simpl. eexists; split; [reflexivity|]. split; simpl; rewrite ?Hr, ?Hsu, ?Hb, ?Hw, ?Hp; auto.
+    intros Hv. destruct (Hl Hv) as (Hreg & Hpc & -> & -> & -> & -> & ->). repeat split; auto.
   - (* Resume *)
     inv_pair H.
     assert (Hsb : sendbuf (do_resume s) = sendbuf s /\ wire (do_resume s) = wire s /\ removed (do_resume s) = removed s /\
-                  peer_closed (do_resume s) = peer_closed s /\ suspended (do_resume s) = false).
+                  peer_closed (do_resume s) = peer_closed s /\ suspended (do_resume s) = false /\
+                  (registered s = true -> registered (do_resume s) = true)).
     { unfold do_resume. destruct (suspended s) eqn:E; simpl; [|tauto]. destruct (buf_isEmpty _); simpl; tauto. }
-    destruct Hsb as (Hb & Hw & Hr & Hp & Hsu).
-    unfold accepts, events_of, size_event, getSendBufferSize. simpl o_dead. cbv iota. rewrite Hr, Hrm, Hb.
-    destruct m as [pend wire0 susp owed may due void]. destruct HMI as [Hs Hdead Hl]. simpl in Hs, Hdead, Hl.
-    destruct void.
-    + simpl. eexists; split; [reflexivity|]. split; simpl; rewrite ?Hr, ?Hsu; auto. discriminate.
-    + destruct (Hl eq_refl) as (Hpc & -> & -> & -> & ->). unfold buf_size. simpl. rewrite Z.eqb_refl.
-      eexists; split; [reflexivity|]. split; simpl; rewrite ?Hr, ?Hsu, ?Hb, ?Hw, ?Hp; auto.
+    destruct Hsb as (Hb & Hw & Hr & Hp & Hsu & Hg).
+    unfold accepts, events_of. simpl o_dead. cbv iota.
+    destruct m as [pend wire0 susp owed may due rdue void]. destruct HMI as [Hs Hdead Hl]. simpl in Hs, Hdead, Hl.
+    simpl. eexists; split; [reflexivity|]. split; simpl; rewrite ?Hr, ?Hsu, ?Hb, ?Hw, ?Hp; auto.
+    intros Hv. destruct (Hl Hv) as (Hreg & Hpc & -> & -> & -> & -> & ->). repeat split; auto.
   - (* Read *)
     assert (Hfr : removed s' = removed s /\ suspended s' = suspended s /\ peer_closed s' = peer_closed s /\
-                  sendbuf s' = sendbuf s /\ wire s' = wire s /\ o_dead r = false).
+                  sendbuf s' = sendbuf s /\ wire s' = wire s /\ registered s' = registered s /\ o_dead r = false).
     { unfold do_read in H. destruct (recv_count (inbound s) (peer_closed s) max) as [k|];
         [destruct (k =? 0)|]; inv_pair H; simpl; tauto. }
-    destruct Hfr as (Hr & Hsu & Hp & Hb & Hw & Hnd).
-    unfold accepts, events_of, size_event, getSendBufferSize. rewrite Hnd, Hr, Hrm, Hb.
-    destruct m as [pend wire0 susp owed may due void]. pose proof HMI as [Hs Hdead Hl]. simpl in Hs, Hdead, Hl.
-    destruct void; simpl.
-    + eexists; split; [reflexivity|]. eapply MI_frame; eauto.
-    + destruct (Hl eq_refl) as (Hpc & -> & -> & -> & ->). unfold buf_size. rewrite Z.eqb_refl.
-      eexists; split; [reflexivity|]. eapply MI_frame; eauto.
+    destruct Hfr as (Hr & Hsu & Hp & Hb & Hw & Hg & Hnd).
+    unfold events_of. rewrite Hnd. eapply accepts_nil; eauto.
   - (* PeerWrite *)
     inv_pair H.
     assert (Hfr : forall s1, s1 = (if peer_closed s then s else set_inbound s (inbound s ++ d)) ->
                   removed s1 = removed s /\ suspended s1 = suspended s /\ peer_closed s1 = peer_closed s /\
-                  sendbuf s1 = sendbuf s /\ wire s1 = wire s).
+                  sendbuf s1 = sendbuf s /\ wire s1 = wire s /\ registered s1 = registered s).
     { intros s1 ->. destruct (peer_closed s) eqn:E; simpl; rewrite ?E; tauto. }
-    destruct (Hfr _ eq_refl) as (Hr & Hsu & Hp & Hb & Hw).
-    unfold accepts, events_of, size_event, getSendBufferSize. simpl o_dead. cbv iota. rewrite Hr, Hrm, Hb.
-    destruct m as [pend wire0 susp owed may due void]. pose proof HMI as [Hs Hdead Hl]. simpl in Hs, Hdead, Hl.
-    destruct void; simpl.
-    + eexists; split; [reflexivity|]. eapply MI_frame; eauto.
-    + destruct (Hl eq_refl) as (Hpc & -> & -> & -> & ->). unfold buf_size. rewrite Z.eqb_refl.
-      eexists; split; [reflexivity|]. eapply MI_frame; eauto.
+    destruct (Hfr _ eq_refl) as (Hr & Hsu & Hp & Hb & Hw & Hg).
+    unfold events_of. simpl o_dead. cbv iota. eapply accepts_nil; eauto.
   - (* PeerRead *)
-    destruct m as [pend wire0 susp owed may due void]. pose proof HMI as [Hs Hdead Hl]. simpl in Hs, Hdead, Hl.
+    destruct m as [pend wire0 susp owed may due rdue void]. pose proof HMI as [Hs Hdead Hl]. simpl in Hs, Hdead, Hl.
     destruct (peer_closed s) eqn:Hp; inv_pair H;
-      unfold accepts, events_of, size_event, getSendBufferSize; simpl; rewrite Hrm.
-    + destruct void; [|destruct (Hl eq_refl) as (Hpc & _); congruence].
+      unfold accepts, events_of; simpl.
+    + destruct void; [|destruct (Hl eq_refl) as (_ & Hpc & _); congruence].
       simpl. eexists; split; [reflexivity | exact HMI].
     + destruct void; simpl.
       * eexists; split; [reflexivity|]. split; simpl; auto. discriminate.
-      * destruct (Hl eq_refl) as (Hpc & -> & -> & -> & ->). rewrite list_eqb_refl. unfold buf_size. simpl. rewrite Z.eqb_refl.
-        eexists; split; [reflexivity|]. split; simpl; auto.
+      * destruct (Hl eq_refl) as (Hreg & Hpc & -> & -> & -> & -> & ->). rewrite list_eqb_refl.
+        eexists; split; [reflexivity|]. split; simpl; auto. intros _. repeat split; auto.
   - (* PeerClose *)
-    destruct m as [pend wire0 susp owed may due void]. pose proof HMI as [Hs Hdead Hl]. simpl in Hs, Hdead, Hl.
+    destruct m as [pend wire0 susp owed may due rdue void]. pose proof HMI as [Hs Hdead Hl]. simpl in Hs, Hdead, Hl.
     destruct (peer_closed s) eqn:Hp; inv_pair H;
-      unfold accepts, events_of, size_event, getSendBufferSize; simpl.
-    + destruct void; [|destruct (Hl eq_refl) as (Hpc & _); congruence].
+      unfold accepts, events_of; simpl.
+    + destruct void; [|destruct (Hl eq_refl) as (_ & Hpc & _); congruence].
       simpl. eexists; split; [reflexivity | exact HMI].
     + destruct void; simpl.
       * eexists; split; [reflexivity|]. split; simpl; auto. discriminate.
-      * destruct (Hl eq_refl) as (Hpc & -> & -> & -> & ->). rewrite list_eqb_refl. simpl.
+      * destruct (Hl eq_refl) as (Hreg & Hpc & -> & -> & -> & -> & ->). rewrite list_eqb_refl. simpl.
         eexists; split; [reflexivity|]. split; simpl; auto; discriminate.
   - (* Remove *)
     inv_pair H. unfold accepts, events_of. simpl.
-    destruct m as [pend wire0 susp owed may due void]. destruct void; simpl;
+    destruct m as [pend wire0 susp owed may due rdue void]. destruct void; simpl;
       (eexists; split; [reflexivity|]); split; simpl; auto; discriminate.
+Qed.
+
+(* a probe of getSendBufferSize() and the end of a run() between two steps *)
+Lemma probe_accepted m s : MI m s -> accepts m (size_probe s) s.
+Proof.
+  intros HMI. unfold accepts, size_probe. destruct (removed s) eqn:Hrm. { eexists; split; [reflexivity | exact HMI]. }
+  destruct m as [pend wire0 susp owed may due rdue void]. pose proof HMI as [Hs Hdead Hl]. simpl in Hs, Hdead, Hl.
+  destruct void; simpl. { eexists; split; [reflexivity | exact HMI]. }
+  destruct (Hl eq_refl) as (Hreg & Hpc & -> & _). unfold getSendBufferSize, buf_size. rewrite Z.eqb_refl.
+  eexists; split; [reflexivity | exact HMI].
+Qed.
+
+Lemma runend_accepted m s : MI m s -> accepts m [ERunEnd] s.
+Proof.
+  intros HMI. unfold accepts.
+  destruct m as [pend wire0 susp owed may due rdue void]. pose proof HMI as [Hs Hdead Hl]. simpl in Hs, Hdead, Hl.
+  destruct void; simpl. { eexists; split; [reflexivity | exact HMI]. }
+  destruct (Hl eq_refl) as (Hreg & Hpc & Hp & Hw & Ho & -> & ->). simpl.
+  eexists; split; [reflexivity|]. split; simpl; auto.
 Qed.
 
 Lemma trace_accepted l : forall m s, inv s -> MI m s -> exists m', mon_run m (trace s l) = Go m'.
 Proof.
-  induction l as [|x l IH]; intros m s Hinv HMI; simpl. { eexists; reflexivity. }
-  destruct (step s x) as [s' r] eqn:E.
-  destruct (step_accepted m s x s' r Hinv HMI E) as [m1 [Hrun HM1]].
-  rewrite mon_run_app, Hrun. apply (IH m1 s'); [eapply inv_step; eauto | exact HM1].
+  induction l as [|h l IH]; intros m s Hinv HMI; simpl. { eexists; reflexivity. }
+  destruct h as [x | | ].
+  - destruct (step s x) as [s' r] eqn:E.
+    destruct (step_accepted m s x s' r Hinv HMI E) as [m1 [Hrun HM1]].
+    rewrite mon_run_app, Hrun. apply (IH m1 s'); [eapply inv_step; eauto | exact HM1].
+  - destruct (probe_accepted m s HMI) as [m1 [Hrun HM1]].
+    rewrite mon_run_app, Hrun. apply (IH m1 s); assumption.
+  - destruct (runend_accepted m s HMI) as [m1 [Hrun HM1]].
+    change (ERunEnd :: trace s l) with ([ERunEnd] ++ trace s l).
+    rewrite mon_run_app, Hrun. apply (IH m1 s); assumption.
 Qed.
 
-Lemma model_trace_accepted_lemma ops : accepted_trace (trace init ops).
+Lemma model_trace_accepted_lemma h : accepted_trace (trace init h).
 Proof. apply trace_accepted; [apply inv_init | apply MI_init]. Qed.
 
-(* ---- two clients: each client's own events ------------------------------------------------------- *)
+(* ---- n clients: each client's own events --------------------------------------------------------- *)
+
+(* The history of the n-client machine as the monitors see it: operations of the machine, probes of
+   getSendBufferSize() on a client, ends of run() calls - in any order. *)
+Inductive hop2 :=
+| H2Op (x : op2)
+| H2Size (c : nat)
+| H2RunEnd.
+
+Definition no_native : native := mknative false false false false false.
+
+(* what client c sees of one step of the n-client machine (the kernel-asked events are not part of it) *)
+Definition events2 (c : nat) (x : op2) (r : out2) : list pev :=
+  match o2_c r with
+  | Some c' =>
+      if Nat.eqb c' c then
+        match x with
+        | On _ y => events_of false no_native y (o2_out r)
+        | Deliver _ => dispatch_events false false (o2_out r)
+        | Sweep => map ECb (o_cbs (o2_out r))
+        | Collect _ => []
+        end
+      else []
+  | None => []
+  end.
+
+Fixpoint trace2 (c : nat) (m : st2) (l : list hop2) : list pev :=
+  match l with
+  | [] => []
+  | H2Op x :: l' => let '(m', r) := step2 m x in events2 c x r ++ trace2 c m' l'
+  | H2Size d :: l' => (if Nat.eqb d c then size_probe (get2 m c) else []) ++ trace2 c m l'
+  | H2RunEnd :: l' => ERunEnd :: trace2 c m l'
+  end.
 
 Lemma flags_not_dead s rf wf o s' r : dispatch_flags s rf wf o = (s', r) -> o_dead r = false.
 Proof.
@@ -400,75 +489,73 @@ Proof.
   eapply flags_not_dead; eauto.
 Qed.
 
-Definition seen (c : bool) (r : out2) (l : list pev) : list pev :=
-  match o2_c r with Some c' => if eqb c' c then l else [] | None => [] end.
+Definition seen (c : nat) (r : out2) (l : list pev) : list pev :=
+  match o2_c r with Some c' => if Nat.eqb c' c then l else [] | None => [] end.
 
 Lemma deliver_accepted c mn m o m' r :
   inv2 m -> MI mn (get2 m c) -> deliver m o = (m', r) ->
-  accepts mn (seen c r (dispatch_events false (o2_out r) (removed (get2 m' c)) (getSendBufferSize (get2 m' c)))) (get2 m' c).
+  accepts mn (seen c r (dispatch_events false false (o2_out r))) (get2 m' c).
 Proof.
   intros Hinv HMI H. unfold deliver in H. destruct (sel m) as [|e l] eqn:El.
   { inv_pair H. unfold seen. simpl. eexists; split; [reflexivity | exact HMI]. }
   destruct (dispatch_flags (get2 m (e_c e)) (e_r e) (e_w e) o) as [s' x] eqn:Ed. inv_pair H.
   unfold seen. cbn [o2_c o2_out].
-  destruct (eqb (e_c e) c) eqn:Ec.
+  destruct (Nat.eqb (e_c e) c) eqn:Ec.
   - apply eqb_true_eq in Ec. subst c. rewrite get2_put2_same.
     pose proof (i2_sel m Hinv) as Hok. rewrite El in Hok. inversion Hok as [|? ? He Hl]; subst.
     pose proof (inv_get2 m (e_c e) Hinv) as Hi.
     pose proof (entry_removed _ _ Hi He) as Hrm.
     destruct He as [Hreg [A B]]. destruct (interest_facts _ Hi Hreg) as [Fr Fw].
-    apply (flags_accepted O mn (get2 m (e_c e)) (e_r e) (e_w e) o s' x); auto; congruence.
+    change (dispatch_events false false x) with (send_events x ++ map ECb (o_cbs x)).
+    apply (flags_accepted O O mn (get2 m (e_c e)) (e_r e) (e_w e) o s' x); auto; congruence.
   - apply eqb_false_neq in Ec. rewrite get2_put2_other by congruence.
     eexists; split; [reflexivity | exact HMI].
 Qed.
 
-Lemma events_of_asked y r b z :
+Lemma events_of_asked rn rn' y r :
   match y with Dispatch _ _ | PollReal _ => False | _ => True end ->
-  events_of false y r b z = events_of true y r b z.
+  events_of false rn y r = events_of true rn' y r.
 Proof. destruct y; simpl; tauto. Qed.
 
 Lemma step2_accepted c mn m x m' r :
   inv2 m -> MI mn (get2 m c) -> step2 m x = (m', r) ->
-  accepts mn (events2 c x r (get2 m' c)) (get2 m' c).
+  accepts mn (events2 c x r) (get2 m' c).
 Proof.
   intros Hinv HMI H.
-  assert (Hnone : forall l, accepts mn [] (get2 m c) -> o2_c r = None -> get2 m' c = get2 m c ->
-                  accepts mn (seen c r l) (get2 m' c)).
-  { intros l Ha Hc Hg. unfold seen. rewrite Hc, Hg. exact Ha. }
   assert (Hid : accepts mn [] (get2 m c)) by (eexists; split; [reflexivity | exact HMI]).
-  unfold step2 in H. destruct x as [c' y | first n0 n1 | o |].
+  unfold step2 in H. destruct x as [c' y | evs | o |].
   - assert (Hsingle : forall n o (z : op),
       match z with Dispatch _ _ | PollReal _ => True | _ => False end ->
       match sel m with
       | [] => if removed (get2 m c') then (m, mkout2 (Some c') out_dead false) else deliver (collect m [(c', n)]) o
       | _ :: _ => (m, out2_idle)
-      end = (m', r) -> accepts mn (events2 c (On c' z) r (get2 m' c)) (get2 m' c)).
+      end = (m', r) -> accepts mn (events2 c (On c' z) r) (get2 m' c)).
     { intros n o z Hz Hs. destruct (sel m); [|inv_pair Hs; exact Hid].
       destruct (removed (get2 m c')) eqn:Erm.
-      - inv_pair Hs. unfold events2. simpl. destruct (eqb c' c); [|exact Hid].
+      - inv_pair Hs. unfold events2. simpl. destruct (Nat.eqb c' c); [|exact Hid].
         unfold events_of. simpl. exact Hid.
       - pose proof (deliver_not_dead _ _ _ _ Hs) as Hnd.
         pose proof (deliver_accepted c mn (collect m [(c', n)]) o m' r (collect_inv2 m _ Hinv)) as Ha.
         rewrite collect_get2 in Ha. specialize (Ha HMI Hs).
         unfold events2. unfold seen in Ha. destruct (o2_c r) as [c2|]; [|exact Ha].
-        destruct (eqb c2 c); [|exact Ha].
+        destruct (Nat.eqb c2 c); [|exact Ha].
         destruct z; try contradiction; unfold events_of; rewrite Hnd; exact Ha. }
     destruct y; try (eapply Hsingle; [exact I | exact H]);
       match type of H with context [step ?s ?y] => destruct (step s y) as [s' r'] eqn:Es end;
       inv_pair H; unfold events2; cbn [o2_c o2_out];
-      (destruct (eqb c' c) eqn:Ec;
+      (destruct (Nat.eqb c' c) eqn:Ec;
        [apply eqb_true_eq in Ec; subst c'; rewrite get2_put2_same;
-        rewrite events_of_asked by exact I;
+        rewrite (events_of_asked no_native (real_native (inbound (get2 m c)) (peer_closed (get2 m c)))) by exact I;
         apply (step_accepted mn (get2 m c) _ s' r' (inv_get2 m c Hinv) HMI Es)
        |apply eqb_false_neq in Ec; rewrite get2_put2_other by congruence; exact Hid]).
   - destruct (sel m); inv_pair H; unfold events2; simpl; rewrite ?collect_get2; exact Hid.
   - pose proof (deliver_accepted c mn m o m' r Hinv HMI H) as Ha. unfold events2. unfold seen in Ha. exact Ha.
   - destruct (closq m) as [|c' k]. { inv_pair H. unfold events2. simpl. exact Hid. }
     destruct (step (get2 m c') CloseSweep) as [s' r'] eqn:Es. inv_pair H. unfold events2. cbn [o2_c o2_out].
-    destruct (eqb c' c) eqn:Ec.
+    destruct (Nat.eqb c' c) eqn:Ec.
     + apply eqb_true_eq in Ec. subst c'. rewrite get2_put2_same.
       pose proof (step_accepted mn (get2 m c) CloseSweep s' r' (inv_get2 m c Hinv) HMI Es) as Ha.
-      assert (E : events_of true CloseSweep r' (removed s') (getSendBufferSize s') = map ECb (o_cbs r')).
+      assert (E : events_of true (real_native (inbound (get2 m c)) (peer_closed (get2 m c))) CloseSweep r' = map ECb (o_cbs r')).
       { unfold events_of. unfold step in Es. destruct (removed (get2 m c)); [inv_pair Es; reflexivity|].
         destruct (closing (get2 m c)); inv_pair Es; reflexivity. }
       rewrite E in Ha. exact Ha.
@@ -477,11 +564,19 @@ Qed.
 
 Lemma trace2_accepted c l : forall mn m, inv2 m -> MI mn (get2 m c) -> exists m', mon_run mn (trace2 c m l) = Go m'.
 Proof.
-  induction l as [|x l IH]; intros mn m Hinv HMI; simpl. { eexists; reflexivity. }
-  destruct (step2 m x) as [m1 r] eqn:E.
-  destruct (step2_accepted c mn m x m1 r Hinv HMI E) as [mn1 [Hrun HM1]].
-  rewrite mon_run_app, Hrun. apply (IH mn1 m1); [eapply inv2_step; eauto | exact HM1].
+  induction l as [|h l IH]; intros mn m Hinv HMI; simpl. { eexists; reflexivity. }
+  destruct h as [x | d | ].
+  - destruct (step2 m x) as [m1 r] eqn:E.
+    destruct (step2_accepted c mn m x m1 r Hinv HMI E) as [mn1 [Hrun HM1]].
+    rewrite mon_run_app, Hrun. apply (IH mn1 m1); [eapply inv2_step; eauto | exact HM1].
+  - destruct (Nat.eqb d c).
+    + destruct (probe_accepted mn (get2 m c) HMI) as [mn1 [Hrun HM1]].
+      rewrite mon_run_app, Hrun. apply (IH mn1 m); assumption.
+    + simpl. apply (IH mn m); assumption.
+  - destruct (runend_accepted mn (get2 m c) HMI) as [mn1 [Hrun HM1]].
+    change (ERunEnd :: trace2 c m l) with ([ERunEnd] ++ trace2 c m l).
+    rewrite mon_run_app, Hrun. apply (IH mn1 m); assumption.
 Qed.
 
-Lemma two_client_trace_accepted_lemma ops c : accepted_trace (trace2 c init2 ops).
-Proof. apply trace2_accepted; [apply inv2_init | destruct c; apply MI_init]. Qed.
+Lemma two_client_trace_accepted_lemma h c : accepted_trace (trace2 c init2 h).
+Proof. apply trace2_accepted; [apply inv2_init | rewrite get2_init2; apply MI_init]. Qed.
